@@ -99,8 +99,32 @@ def run_catalog(payload):
     return {'path': path, 'tags': out}
 
 
-def cli_lines(path, colour):
-    env = dict(os.environ, PYTHONPATH=common.REPO, TERM='xterm')
+DELAYS = ['$<2>', '$<20>', '$<10/>', '$<.5*/>', '$<100*>', '$<1.5>', '$<12.3/>', '$<5*>', '$<250>']
+
+
+def build_terminfo(d):
+    """terminal descriptions whose colour capabilities carry terminfo(5) padding ("$<number[*][/]>", at most one decimal place);
+    returns (TERMINFO directory, [TERM names]) or (None, []) without tic"""
+    if not shutil.which('tic'):
+        return None, []
+    os.makedirs(d, exist_ok=True)
+    names = []
+    for k, dl in enumerate(DELAYS):
+        other = DELAYS[(k + 3) % len(DELAYS)]
+        name = 'verif-delay%d' % k
+        src = os.path.join(d, name + '.ti')
+        with open(src, 'w') as f:
+            f.write('%s|padding %s,\n\tcolors#8, setaf=\\E[3%%p1%%dm%s, sgr0=\\E[0m%s, op=\\E[39;49m,\n' % (name, dl.replace(',', ''), other, dl))
+        p = subprocess.run(['tic', '-o', os.path.join(d, 'db'), src], stdout=subprocess.PIPE, stderr=subprocess.PIPE)
+        if p.returncode == 0:
+            names.append(name)
+    return os.path.join(d, 'db'), names
+
+
+def cli_lines(path, colour, term=None, terminfo=None):
+    env = dict(os.environ, PYTHONPATH=common.REPO, TERM=term or 'xterm')
+    if terminfo:
+        env['TERMINFO'] = terminfo
     cmd = [common.PY, os.path.join(common.REPO, 'i18nspector'), path]
     if colour:
         import pty
@@ -247,6 +271,7 @@ def check(ctx):
     ncli = 12 if ctx.quick() else 200
     sgr = re.compile(r'\x1b\[[0-9;]*m|\x1b\(B|\x0f')
     done = 0
+    tinfo, terms = build_terminfo(os.path.join(common.WORK, 'c02', 'terminfo'))
     for (i, text, ext), r in zip(payloads, results):
         if done >= ncli:
             break
@@ -267,6 +292,20 @@ def check(ctx):
                 next(((a, b) for a, b in zip(stripped + [None] * 99, exp + [None] * 99) if a != b), None),))
         elif not any('\x1b[' in x for x in cgot):
             ctx.count('cli_colour_runs_without_sgr')
+        # terminals whose setaf / sgr0 carry padding specifications: the padding must not reach the output
+        if done <= (2 if ctx.quick() else 10):
+            for term in terms:
+                tout = cli_lines(r['path'], True, term=term, terminfo=tinfo)
+                tgot = tout.split('\n')[:-1] if tout.endswith('\n') else tout.split('\n')
+                tstripped = [sgr.sub('', x) for x in tgot]
+                ctx.evaluations += 1
+                ctx.count('cli_padding_runs')
+                if tstripped != exp:
+                    ctx.fail('cli-colour', {'catalog': text[:2000], 'terminfo': open(os.path.join(os.path.dirname(tinfo), term + '.ti')).read()},
+                             'terminal with padding in setaf/sgr0: stripping SGR sequences from the coloured output does not give the uncoloured lines: %r' % (
+                                 next(((a, b) for a, b in zip(tstripped + [None] * 99, exp + [None] * 99) if a != b), None),))
+                elif not any('\x1b[' in x for x in tgot):
+                    ctx.count('cli_colour_runs_without_sgr')
         # stdout that cannot represent every character (a pipe with an ASCII / Latin-1 locale): still one line per problem, rc 0
         for enc in ('ascii', 'latin-1'):
             o2, e2, rc2 = cli_lines_enc(r['path'], enc)
@@ -277,6 +316,49 @@ def check(ctx):
                          'with a %s stdout: rc=%d stderr=%r, %d lines for %d problems' % (enc, rc2, e2[-200:], len(got2), len(exp)))
         ctx.evaluations += 4
     ctx.count('cli_runs', done)
+    # ---- (d) packages: --unpack-deb on a .deb and a native .dsc holding hostile catalogs: nothing but diagnostic lines on stdout
+    if shutil.which('dpkg-deb'):
+        from harness import c17
+        root = os.path.join(common.WORK, 'c02', 'pkg')
+        tree = os.path.join(root, 'tree')
+        os.makedirs(os.path.join(tree, 'DEBIAN'))
+        os.makedirs(os.path.join(tree, 'usr/share/po'))
+        with open(os.path.join(tree, 'DEBIAN', 'control'), 'w') as f:
+            f.write('Package: verif-test0\nVersion: 1.0\nArchitecture: all\nMaintainer: X <x@example.org>\nDescription: test\n')
+        members = []
+        for (i, text, ext), r in zip(payloads, results):
+            if len(members) >= (4 if ctx.quick() else 20):
+                break
+            if not isinstance(r, dict) or 'crash' in r or not r['tags']:
+                continue
+            m = 'usr/share/po/h%d%s' % (i, ext if ext.startswith('.') else '.' + ext)
+            shutil.copy(r['path'], os.path.join(tree, m))
+            members.append(m)
+        line_re = re.compile(r'[EWIP]: [^\n]+?: ([a-z0-9-]+)( .*)?')
+        exp = []
+        for m in members:
+            o, e, rc = c17.run_cli([m], tree)
+            exp.append((m, o.split('\n')[:-1]))
+        packages = []
+        if subprocess.run(['dpkg-deb', '--root-owner-group', '-b', tree, os.path.join(root, 'pkg0.deb')], stdout=subprocess.PIPE, stderr=subprocess.PIPE).returncode == 0:
+            packages.append('pkg0.deb')
+        if shutil.which('dpkg-source'):
+            packages.append(os.path.basename(c17._write_dsc(root, tree, 0)))
+        for pkg in packages:
+            for opts in ([], ['-j', '2']):
+                o, e, rc = c17.run_cli(opts + ['--unpack-deb', pkg], root)
+                got = sorted(o.split('\n')[:-1])
+                want = sorted(l.replace(': %s: ' % m, ': %s/%s: ' % (pkg, m)) for m, ls in exp for l in ls)
+                ctx.evaluations += 1
+                ctx.count('cli_package_runs')
+                bad = [l for l in got if not line_re.fullmatch(l) or not is_clean(l)]
+                if bad:
+                    ctx.fail('line-grammar', {'package': pkg, 'options': opts, 'members': members}, 'stdout line of an --unpack-deb run is not a diagnostic line: %r' % bad[0])
+                elif got != want:
+                    ctx.fail('cli-lines', {'package': pkg, 'options': opts, 'members': members}, '--unpack-deb printed %d lines for %d problems; e.g. %r' % (
+                        len(got), len(want), ([l for l in got if l not in want] + [l for l in want if l not in got])[:2]))
+                else:
+                    ctx.nontriv(('pkg', pkg, tuple(opts)))
     shutil.rmtree(os.path.join(common.WORK, 'c02'), ignore_errors=True)
     ctx.samples = [{'escape': [k, repr(v)]} for (k, v) in cases[::max(1, len(cases) // 5)]][:5] + \
                   [{'catalog_head': p[1][-300:]} for p in payloads[:3]]
@@ -286,5 +368,5 @@ def check(ctx):
         rule='(a) model escape vs tags._escape on all strings of length <= %d over a %d-character hostile alphabet, every code point < U+3000, byte strings, random strings over all planes; '
              'all 18 severity x certainty pairs vs the property\'s letter table; (b) hostile catalogs (every free-text slot of a valid catalog filled with hostile text, 1-3 slots per catalog) '
              'through the real Checker in-process: every recorded safestr value must be printable, every formatted line must match the line grammar and equal the model\'s line; '
-             '(c) the same files through the real CLI without and with a pseudo-terminal: printed lines == recorded tag calls, SGR-stripped == uncoloured. '
+             '(c) the same files through the real CLI without and with a pseudo-terminal: printed lines == recorded tag calls, SGR-stripped == uncoloured, also for terminal descriptions compiled with tic whose setaf/sgr0 carry padding ($<2> .. $<250>, with * and /). '
              'non-trivial = distinct escaped value that differs from its input, or distinct (tag, arguments) line' % (maxlen, len(ALPHA)))
